@@ -229,6 +229,9 @@ Proof.
   destruct ((0 <? mx) && (mx <? n)); [right; left; auto | right; right; auto].
 Qed.
 
+Lemma ssize_range big : 1 <= ssize big <= 2.
+Proof. unfold ssize. destruct (big =? 1); lia. Qed.
+
 (* ================= decoding the run ================= *)
 Lemma step_compat c s o : compat o (fst (step c s o)).
 Proof.
@@ -237,8 +240,7 @@ Proof.
     destruct (write_cases (cl_seq s) (c_maxchunks c) (Z.max 1 n) (cl_id s + 1) (c_schan c))
       as [[-> _]|[[-> _]|[-> _]]]; exact I.
   - destruct (negb (sv_alive s)); [exact I|].
-    destruct (write_cases (sv_seq s) (c_maxchunks c) 1 rid (c_schan c)) as [[-> _]|[[-> _]|[-> _]]]; try exact I.
-    destruct (big =? 1); exact I.
+    destruct (write_cases (sv_seq s) (c_maxchunks c) (ssize big) rid (c_schan c)) as [[-> _]|[[-> _]|[-> _]]]; exact I.
   - destruct (resolve (sent s) l) as [|c0 cs] eqn:E; [cbn; lia|].
     destruct (receive (r_last s) (c_rchan c) (c0 :: cs)) eqn:Er; cbn; try exact I; try lia.
     apply receive_err_code in Er. lia.
@@ -252,9 +254,8 @@ Proof.
     destruct (write_cases (cl_seq s) (c_maxchunks c) (Z.max 1 n) (cl_id s + 1) (c_schan c))
       as [[-> _]|[[-> _]|[-> _]]]; cbn; split; try discriminate; tauto.
   - destruct (negb (sv_alive s)); [cbn; split; discriminate|].
-    destruct (write_cases (sv_seq s) (c_maxchunks c) 1 rid (c_schan c)) as [[-> _]|[[-> _]|[-> _]]];
-      try (cbn; split; try discriminate; tauto).
-    destruct (big =? 1); cbn; split; discriminate.
+    destruct (write_cases (sv_seq s) (c_maxchunks c) (ssize big) rid (c_schan c)) as [[-> _]|[[-> _]|[-> _]]];
+      cbn; split; try discriminate; tauto.
   - destruct (resolve (sent s) l) as [|c0 cs] eqn:E; [cbn; split; discriminate|].
     destruct (receive (r_last s) (c_rchan c) (c0 :: cs)) eqn:Er; cbn; split; try discriminate; tauto.
 Qed.
@@ -351,23 +352,23 @@ Proof.
     destruct (sv_alive s) eqn:Ea; cbn [negb].
     2:{ cbn [oracle_from]. apply IH; [constructor; auto; rewrite Ea; discriminate|assumption]. }
     specialize (Rs eq_refl).
-    destruct (write_cases (sv_seq s) (c_maxchunks c) 1 rid (c_schan c)) as [[-> Hw]|[[-> Hw]|[-> Hw]]].
-    + cbn [oracle_from]. rewrite Rs.
-      replace (U32MAX <? sv_seq s + 1) with true by (symmetry; apply Z.ltb_lt; lia). reflexivity.
+    destruct (write_cases (sv_seq s) (c_maxchunks c) (ssize big) rid (c_schan c)) as [[-> Hw]|[[-> Hw]|[-> Hw]]].
+    + cbn [oracle_from]. rewrite Rs. pose proof (ssize_range big).
+      replace (U32MAX <? sv_seq s + 1 + ssize big - 1) with true by (symmetry; apply Z.ltb_lt; lia). reflexivity.
     + cbn [oracle_from]. apply IH; [|assumption]. constructor; cbn; auto; try discriminate.
-    + destruct (big =? 1).
-      * cbn [oracle_from]. apply IH; [|assumption]. constructor; cbn; auto; try discriminate.
-      * cbn [oracle_from]. rewrite Rs, hdrs_length, number_length, Z.eqb_refl, numbered_number.
-        change (Z.to_nat 1) with 1%nat. cbn [Nat.eqb negb andb Z.of_nat].
-        replace (sv_seq s + 1 + Z.pos (Pos.of_succ_nat 0) - 1 <=? U32MAX) with true
-          by (symmetry; apply Z.leb_le; cbn; lia).
-        apply IH; [|assumption].
-        pose proof (number_nonempty (sv_seq s) 1 rid (c_schan c) ltac:(lia)) as Hne.
-        constructor; cbn [g_cnext g_snext g_maxid g_tbl g_hw upd_server cl_seq sv_seq sv_alive cl_id sent r_last]; auto; try lia.
-        -- rewrite chunks_of_hdrs by apply number_cid. rewrite Rtbl.
-           destruct (number (sv_seq s) 1 rid (c_schan c)); [contradiction|reflexivity].
-        -- destruct (number (sv_seq s) 1 rid (c_schan c)) eqn:En; [contradiction|].
-           rewrite <- En. apply bounded_snoc; [exact Rb|]. apply number_bounded. lia.
+    + pose proof (ssize_range big) as Hsz.
+      cbn [oracle_from]. rewrite Rs, hdrs_length, number_length, Z.eqb_refl, numbered_number.
+      assert (Hn : (0 < Z.to_nat (ssize big))%nat) by lia.
+      destruct (Z.to_nat (ssize big) =? 0)%nat eqn:E0; [apply Nat.eqb_eq in E0; lia|].
+      rewrite Z2Nat.id by lia.
+      replace (sv_seq s + 1 + ssize big - 1 <=? U32MAX) with true by (symmetry; apply Z.leb_le; lia).
+      cbn [negb andb]. apply IH; [|assumption].
+      pose proof (number_nonempty (sv_seq s) (ssize big) rid (c_schan c) ltac:(lia)) as Hne.
+      constructor; cbn [g_cnext g_snext g_maxid g_tbl g_hw upd_server cl_seq sv_seq sv_alive cl_id sent r_last]; auto; try lia.
+      * rewrite chunks_of_hdrs by apply number_cid. rewrite Rtbl.
+        destruct (number (sv_seq s) (ssize big) rid (c_schan c)); [contradiction|reflexivity].
+      * destruct (number (sv_seq s) (ssize big) rid (c_schan c)) eqn:En; [contradiction|].
+        rewrite <- En. apply bounded_snoc; [exact Rb|]. apply number_bounded. lia.
   - (* Recv *)
     cbn in Ho. pose proof (resolve_bounded (sent s) l Rb Ho) as Hbd.
     destruct (resolve (sent s) l) as [|c0 cs] eqn:Er.
@@ -525,21 +526,19 @@ Proof.
       destruct (number (cl_seq s) (Z.max 1 n) (cl_id s + 1) (c_schan c)) eqn:En; [contradiction|].
       rewrite <- En. apply bounded_snoc; [assumption|]. apply number_bounded. lia.
   - destruct (sv_alive s) eqn:Ea; cbn [negb]; [|cbn; intros H; inversion H; subst; exact I].
-    destruct (write_cases (sv_seq s) (c_maxchunks c) 1 rid (c_schan c)) as [[-> Hw]|[[-> Hw]|[-> Hw]]];
+    destruct (write_cases (sv_seq s) (c_maxchunks c) (ssize big) rid (c_schan c)) as [[-> Hw]|[[-> Hw]|[-> Hw]]];
       cbn [snd]; [discriminate| |].
     + intros H; inversion H; subst; clear H.
       destruct I. constructor; cbn [upd_server cl_seq cl_emitted cl_id cl_ids sv_alive sv_seq sv_emitted sent r_last accepted];
         rewrite ?app_nil_r; auto; try lia; discriminate.
-    + destruct (big =? 1); cbn [snd]; intros H; inversion H; subst; clear H.
-      * destruct I. constructor; cbn [upd_server cl_seq cl_emitted cl_id cl_ids sv_alive sv_seq sv_emitted sent r_last accepted];
-          rewrite ?app_nil_r; auto; try lia; discriminate.
-      * destruct (emitted_snoc (c_sseq0 c) (sv_emitted s) _ (sv_seq s) 1 rid (c_schan c)
-                    eq_refl ltac:(lia) (i_sseq _ _ I Ea) (i_snum _ _ I)) as [E1 E2].
-        pose proof (number_nonempty (sv_seq s) 1 rid (c_schan c) ltac:(lia)) as Hne.
-        destruct I. constructor; cbn [upd_server cl_seq cl_emitted cl_id cl_ids sv_alive sv_seq sv_emitted sent r_last accepted];
-          auto; try lia.
-        destruct (number (sv_seq s) 1 rid (c_schan c)) eqn:En; [contradiction|].
-        rewrite <- En. apply bounded_snoc; [assumption|]. apply number_bounded. lia.
+    + pose proof (ssize_range big) as Hsz. cbn [snd]; intros H; inversion H; subst; clear H.
+      destruct (emitted_snoc (c_sseq0 c) (sv_emitted s) _ (sv_seq s) (ssize big) rid (c_schan c)
+                  eq_refl ltac:(lia) (i_sseq _ _ I Ea) (i_snum _ _ I)) as [E1 E2].
+      pose proof (number_nonempty (sv_seq s) (ssize big) rid (c_schan c) ltac:(pose proof (ssize_range big); lia)) as Hne.
+      destruct I. constructor; cbn [upd_server cl_seq cl_emitted cl_id cl_ids sv_alive sv_seq sv_emitted sent r_last accepted];
+        auto; try lia.
+      destruct (number (sv_seq s) (ssize big) rid (c_schan c)) eqn:En; [contradiction|].
+      rewrite <- En. apply bounded_snoc; [assumption|]. apply number_bounded. lia.
   - pose proof (resolve_bounded (sent s) l (i_sent _ _ I) Hv) as Hbd.
     destruct (resolve (sent s) l) as [|c0 cs] eqn:Er; [cbn; intros H; inversion H; subst; exact I|].
     destruct (receive (r_last s) (c_rchan c) (c0 :: cs)) as [x|e|] eqn:Ev; cbn [snd];
@@ -640,7 +639,8 @@ Lemma server_wrap c s rid big : sv_alive s = true -> U32MAX < sv_seq s + 1 ->
   step c s (SSend rid big) = (OPanic, None).
 Proof.
   intros Ha H. cbn [step]. rewrite Ha. cbn [negb].
-  destruct (write_cases (sv_seq s) (c_maxchunks c) 1 rid (c_schan c)) as [[-> _]|[[_ Hw]|[_ Hw]]];
+  pose proof (ssize_range big).
+  destruct (write_cases (sv_seq s) (c_maxchunks c) (ssize big) rid (c_schan c)) as [[-> _]|[[_ Hw]|[_ Hw]]];
     [reflexivity|lia|lia].
 Qed.
 
@@ -649,14 +649,14 @@ Fixpoint demand (ops : list op) : Z * Z * Z :=      (* client chunks, client req
   match ops with
   | [] => (0, 0, 0)
   | CSend n :: ops' => let '(a, b, d) := demand ops' in (a + Z.max 1 n, b + 1, d)
-  | SSend _ _ :: ops' => let '(a, b, d) := demand ops' in (a, b, d + 1)
+  | SSend _ big :: ops' => let '(a, b, d) := demand ops' in (a, b, d + ssize big)
   | Recv _ :: ops' => demand ops'
   end.
 
 Lemma demand_nonneg ops : let '(a, b, d) := demand ops in 0 <= a /\ 0 <= b /\ 0 <= d.
 Proof.
   induction ops as [|o ops IH]; cbn [demand]; [lia|].
-  destruct o; destruct (demand ops) as [[a b] d]; lia.
+  destruct o as [n|rid big|l]; destruct (demand ops) as [[a b] d]; try pose proof (ssize_range big); lia.
 Qed.
 
 Lemma no_panic_from c : forall ops s,
@@ -671,10 +671,10 @@ Proof.
     destruct (Z.ltb_spec U32MAX (cl_id s + 1)); [lia|].
     destruct (write_cases (cl_seq s) (c_maxchunks c) (Z.max 1 n) (cl_id s + 1) (c_schan c))
       as [[-> Hw]|[[-> Hw]|[-> Hw]]]; cbn [snd]; [lia| |]; apply IH; cbn; lia.
-  - destruct (negb (sv_alive s)); [cbn [snd]; apply IH; lia|].
-    destruct (write_cases (sv_seq s) (c_maxchunks c) 1 rid (c_schan c)) as [[-> Hw]|[[-> Hw]|[-> Hw]]];
-      cbn [snd]; [lia| |]; [apply IH; cbn; lia|].
-    destruct (big =? 1); cbn [snd]; apply IH; cbn; lia.
+  - pose proof (ssize_range big) as Hsz.
+    destruct (negb (sv_alive s)); [cbn [snd]; apply IH; lia|].
+    destruct (write_cases (sv_seq s) (c_maxchunks c) (ssize big) rid (c_schan c)) as [[-> Hw]|[[-> Hw]|[-> Hw]]];
+      cbn [snd]; [lia| |]; apply IH; cbn; lia.
   - destruct (resolve (sent s) l) as [|c0 cs]; [cbn [snd]; apply IH; lia|].
     destruct (receive (r_last s) (c_rchan c) (c0 :: cs)) eqn:Ev; cbn [snd].
     + apply IH. cbn. lia.
@@ -700,9 +700,8 @@ Proof.
     destruct (write_cases (cl_seq s) (c_maxchunks c) (Z.max 1 n) (cl_id s + 1) (c_schan c))
       as [[-> _]|[[-> _]|[-> _]]]; cbn; intros H; inversion H; cbn; lia.
   - destruct (negb (sv_alive s)); [cbn; intros H; inversion H; lia|].
-    destruct (write_cases (sv_seq s) (c_maxchunks c) 1 rid (c_schan c)) as [[-> _]|[[-> _]|[-> _]]];
-      try (cbn; intros H; inversion H; cbn; lia).
-    destruct (big =? 1); cbn; intros H; inversion H; cbn; lia.
+    destruct (write_cases (sv_seq s) (c_maxchunks c) (ssize big) rid (c_schan c)) as [[-> _]|[[-> _]|[-> _]]];
+      cbn; intros H; inversion H; cbn; lia.
   - destruct (resolve (sent s) l) as [|c0 cs]; [cbn; intros H; inversion H; lia|].
     destruct (receive (r_last s) (c_rchan c) (c0 :: cs)) eqn:Ev; cbn; intros H; inversion H; subst; cbn; try lia.
     apply receive_ok_greater in Ev. lia.
@@ -820,13 +819,14 @@ Proof.
     apply Forall_app. split; [exact H|]. constructor; [|constructor].
     exists (cl_seq s), (Z.max 1 n), (cl_id s + 1). repeat split; [lia|exact Hw].
   - destruct (negb (sv_alive s)); [cbn; intros E; inversion E; subst; exact H|].
-    destruct (write_cases (sv_seq s) (c_maxchunks c) 1 rid (c_schan c)) as [[-> Hw]|[[-> Hw]|[-> Hw]]];
+    destruct (write_cases (sv_seq s) (c_maxchunks c) (ssize big) rid (c_schan c)) as [[-> Hw]|[[-> Hw]|[-> Hw]]];
       cbn [snd]; [discriminate|intros E; inversion E; subst; exact H|].
-    destruct (big =? 1); cbn [snd]; intros E; inversion E; subst; clear E; cbn [upd_server sent]; [exact H|].
-    pose proof (number_nonempty (sv_seq s) 1 rid (c_schan c) ltac:(lia)) as Hne.
-    destruct (number (sv_seq s) 1 rid (c_schan c)) eqn:En; [contradiction|]. rewrite <- En.
+    pose proof (ssize_range big) as Hsz.
+    cbn [snd]; intros E; inversion E; subst; clear E; cbn [upd_server sent].
+    pose proof (number_nonempty (sv_seq s) (ssize big) rid (c_schan c) ltac:(pose proof (ssize_range big); lia)) as Hne.
+    destruct (number (sv_seq s) (ssize big) rid (c_schan c)) eqn:En; [contradiction|]. rewrite <- En.
     apply Forall_app. split; [exact H|]. constructor; [|constructor].
-    exists (sv_seq s), 1, rid. repeat split; [lia|exact Hw].
+    exists (sv_seq s), (ssize big), rid. repeat split; [lia|exact Hw].
   - destruct (resolve (sent s) l) as [|c0 cs]; [cbn; intros E; inversion E; subst; exact H|].
     destruct (receive (r_last s) (c_rchan c) (c0 :: cs)); cbn [snd]; intros E; inversion E; subst; exact H.
 Qed.
